@@ -53,6 +53,19 @@ Theorem C35_get_for_update_locks : forall oracle cached locked s, WF s -> (locke
 Proof. exact getfu_locks. Qed.
 Print Assumptions C35_get_for_update_locks.
 
+(* ... and through the one-to-one attribute that has no column (T.get_for_update(w=obj)): the object is found through the reverse
+   attribute; if it is already locked it is returned (the session is in its transaction, lock held), otherwise the call fails
+   loudly (NotImplementedError from _construct_sql_) without issuing any driver call.  The side that has the column
+   (W.get_for_update(t=obj)) is an ordinary OGetFU after the lazy load of the reverse attribute. *)
+Theorem C35_get_for_update_reverse : forall oracle locked s, WF s -> (locked = true -> 0 < k_forupd s) ->
+  match run_op oracle (OGetFURev locked) s with
+  | (Ok, s') => locked = true /\ k_intxn s' = true /\ mine s' = true /\ lock s' = true
+  | (Err e, s') => locked = false /\ e = ENotImpl /\ trace s' = trace s
+  | (Blocked, _) => False
+  end.
+Proof. exact getfu_rev_locks. Qed.
+Print Assumptions C35_get_for_update_reverse.
+
 (* SQL text: PostgreSQL / MySQL (SQLBuilder.SELECT_FOR_UPDATE) append FOR UPDATE [NOWAIT] [SKIP LOCKED]; SQLite appends nothing. *)
 Theorem C35_for_update_sql : forall nowait skip,
   concat (generic_for_update nowait skip) = str_FOR_UPDATE ++ (if nowait then str_NOWAIT else []) ++ (if skip then str_SKIP_LOCKED else []) ++ [10%Z]
